@@ -489,10 +489,16 @@ def h_mapv(vf, node, fn, args):
     return T.app('mapv', x, tt(vf, c))
 
 
-def lam_term(vf, clos, nargs):
-    """closure as a lambda term (bound variables named by height)"""
+def lam_term(vf, clos, nargs, node=None):
+    """closure (or function item) as a lambda term (bound variables named by height)"""
     ks = [T.sym(vf.fresh('k#')) for _ in range(nargs)]
-    body = tt(vf, vf.apply_closure(clos, ks))
+    if isinstance(clos, Clos):
+        body = tt(vf, vf.apply_closure(clos, ks))
+    else:
+        r_ = vf.apply_fn_item(tt(vf, clos), ks, node)
+        if r_ is None:
+            return tt(vf, clos)
+        body = tt(vf, r_)
     from .vflow import binder_height
     for k in ks:
         h = binder_height(body) + 1
@@ -552,6 +558,20 @@ def h_len(vf, node, fn, args):
 @reg('SEQ', 'std::vec::Vec::new', 'std::vec::Vec::with_capacity')
 def h_vec_new(vf, node, fn, args):
     return T.app('array')
+
+
+@reg('SEQ', 'std::vec::Vec::resize')
+def h_vec_resize(vf, node, fn, args):
+    """v.resize(m, x): the first m elements of v followed by copies of x up to length m"""
+    from .vflow import seq_len
+    r = args[0]
+    if isinstance(r, Ref):
+        cur = tt(vf, vf.read(r.place))
+        m, x = tt(vf, args[1]), tt(vf, vf.deref(args[2]))
+        k = T.sym(vf.fresh('k#'))
+        vf.write(r.place, mk_comp(m, k, T.ite(T.cmp('lt', k, seq_len(cur)), index_term(cur, k), x)))
+        return T.UNIT
+    return vf.default_call('std::vec::Vec::resize', args, node, fn)
 
 
 @reg('SEQ', 'std::vec::Vec::clear')
@@ -621,7 +641,7 @@ def h_sort(vf, node, fn, args):
 @reg('SEQ', 'core::slice::sort_by', 'core::slice::sort_unstable_by')
 def h_sort_by(vf, node, fn, args):
     r, c = args[0], vf.deref(args[1])
-    cmpt = lam_term(vf, c, 2) if isinstance(c, Clos) else tt(vf, c)
+    cmpt = lam_term(vf, c, 2, node)           # a closure or a function item (`sort_by(descending)`)
     if isinstance(r, Ref):
         vf.write(r.place, T.app('sorted_by', tt(vf, vf.read(r.place)), cmpt))
     vf.log('sort_by', [cmpt], node)
